@@ -178,6 +178,16 @@ fn shapes(tier: Tier) -> Vec<Shape> {
     ] {
         out.push(Shape { label: label.to_string(), tree });
     }
+    // every operand the very same non-cacheable call (`p(i0) and p(i0)`): textually identical
+    // operands are still evaluated one by one; also identical calls one level down
+    for k in ks.iter().filter(|k| k.arity >= 2) {
+        let same = || RE::call("p", RE::Val(RV::Int(0)));
+        out.push(Shape { label: format!("{}/identical-operands", k.label), tree: (k.build)((0..k.arity).map(|_| same()).collect()) });
+        let nested = || RE::un(UnOp::Not, RE::call("p", RE::Val(RV::Int(0))));
+        out.push(Shape { label: format!("{}/identical-nested-operands", k.label), tree: (k.build)((0..k.arity).map(|_| nested()).collect()) });
+        let q = || RE::call("q", RE::call("p", RE::Val(RV::Int(0))));
+        out.push(Shape { label: format!("{}/identical-call-chains", k.label), tree: (k.build)((0..k.arity).map(|_| q()).collect()) });
+    }
     // mixed leaves: some child positions are not probes but a symbol, an input field or a constant
     // holding true / false / none / a non-boolean (whatever sits next to a probe, the probe is
     // invoked exactly when the language says so)
@@ -447,7 +457,14 @@ fn make_ruleset(tree: &RE, world: &Arc<Mutex<World>>) -> Result<RuleSet, String>
         let r = match answer(a, k) {
             Ok(v) => Ok(v.to_value()),
             Err(_) if a == 6 => Err(anyhow::Error::new(reval::Error::UnexpectedValueType(Value::None, format!("harness#{k}")))),
-            Err(_) => Err(anyhow::Error::new(Injected(k))),
+            // the harness's own failure travels as different error types depending on where in the
+            // history it happens: plain, or inside an io::Error of a kind callers like to retry
+            Err(_) => Err(match k % 4 {
+                0 => anyhow::Error::new(Injected(k)),
+                1 => anyhow::Error::new(std::io::Error::new(std::io::ErrorKind::Interrupted, Injected(k))),
+                2 => anyhow::Error::new(std::io::Error::new(std::io::ErrorKind::WouldBlock, Injected(k))),
+                _ => anyhow::Error::new(std::io::Error::new(std::io::ErrorKind::TimedOut, Injected(k))),
+            }),
         };
         (r, if g.suspend { 1 } else { 0 })
     });
